@@ -198,7 +198,8 @@ def show_rows(n, m, rows):
     return "OK %d %d" % (n, m) + "".join(" |" + "".join(" %d:%s" % e for e in rw) for rw in rows)
 
 
-# the witnesses of the refutation theorems of Properties_C19.v, replayed on the real code every run
+# the witnesses of the HISTORICAL refutation theorems of Properties_C19.v (readers before the fix: commits),
+# replayed on the real code every run: the repaired readers (and the checked models) must reject every one
 def witness_lines():
     B = b"%%MatrixMarket matrix coordinate real general\n"
     def binfile(n, ptr, col, vals):
